@@ -349,10 +349,10 @@ def check_apply(rng):
     a3 = s.apply(pts)
     a4 = s.apply(np.hstack([pts, np.ones((len(pts), 1))]))
     c3 = s(pts)
-    if not (np.allclose(a3, a4[:, :3], atol=1e-12) and np.allclose(a4[:, 3], 1) and np.allclose(a3, c3)):
+    if not (np.allclose(a3, a4[:, :3], rtol=0, atol=1e-12) and np.allclose(a4[:, 3], 1, rtol=0, atol=1e-12) and np.allclose(a3, c3, rtol=0, atol=1e-12)):
         return f"apply on 3-vectors and homogeneous 4-vectors differ for op {ref_str(rot, digs)}", (rot, digs)
     want = pts @ R.T + np.array(digs) / 12
-    if not np.allclose(a3, want, atol=1e-12):
+    if not np.allclose(a3, want, rtol=0, atol=1e-12):
         return f"apply(x) != x·Rᵀ + t for op {ref_str(rot, digs)}", (rot, digs)
     # a second operation equal to the first modulo the lattice (whole cells added, noise far below 1/24), used AFTER the first:
     # its own 3-vector and homogeneous forms must still agree with each other
@@ -360,7 +360,7 @@ def check_apply(rng):
     s2 = S(R, np.array(digs) / 12 + shift)
     b3 = s2.apply(pts)
     b4 = s2.apply(np.hstack([pts, np.ones((len(pts), 1))]))
-    if not np.allclose(b3, b4[:, :3], atol=1e-9):
+    if not np.allclose(b3, b4[:, :3], rtol=0, atol=1e-9):
         return (f"after using op {ref_str(rot, digs)}, an operation equal to it modulo the lattice (translation shifted by {shift.tolist()}) applies "
                 f"differently to 3-vectors and to homogeneous 4-vectors (max difference {np.abs(b3 - b4[:, :3]).max():.3g})"), (rot, digs)
     uc = UnitCell.from_lengths_and_angles([rng.uniform(3, 20) for _ in range(3)], [math.radians(rng.uniform(70, 115)) for _ in range(3)])
